@@ -689,6 +689,9 @@ def run_world(ctx, world, workdir):
         ctx.count("op:file-sequence")
         if str(file_bio.seq) != geo.expected_sequence(str(parent_seq)):
             ctx.violate("file-sequence", dict(facts, file_length=len(file_bio.seq), region_length=geo.length), case)
+        if geo.crosses and geo.length == length:
+            facts["window_is_whole_ring_with_seam_off_origin"] = True
+            facts["extract_is_empty"] = len(file_bio.seq) == 0 and not file_bio.features
         log = Log(ctx, facts, case)
         check_header(ctx, view, file_bio, log)
         pairs = pair_features(ctx, view, file_bio, log)
@@ -705,6 +708,8 @@ def run_world(ctx, world, workdir):
 def classify_region(ctx, view: RegionView, record):
     geo = view.geo
     ctx.count("region:first" if view.number == 1 else "region:later")
+    if geo.crosses and geo.length == view.length:
+        ctx.count("region:whole-ring-with-seam-off-origin")
     if geo.crosses:
         ctx.count("region:spans-origin")
         if any(f.type == "CDS" and geo.side(f.location) == "crossing" for f in view.inside):
@@ -863,6 +868,16 @@ def _c12_consequence(clause, facts):
         nothing, or anything unaccounted for, was wrong. """
     return clause.startswith("reload-") and facts.get("file_level_failures_all_known") is True \
         and bool(facts.get("file_level_failures"))
+
+
+@findings.classifier("c12_whole_ring_region_written_empty")
+def _c12_whole_ring(clause, facts):
+    """ a region covering a whole circular record from a point other than the origin has start == end;
+        RegionData.crosses_origin() (start > end) says no and record[start:end] is empty: the file has no sequence
+        and no features. Must not hide: anything in a file that is not empty, or for any other window. """
+    return (facts.get("window_is_whole_ring_with_seam_off_origin") is True and facts.get("extract_is_empty") is True
+            and clause in ("file-sequence", "feature-missing-or-moved", "region-feature-count", "reload-region-count",
+                           "reload-fails", "header-window"))
 
 
 @findings.classifier("c12_twin_areas_swap_on_load")
